@@ -1465,7 +1465,13 @@ fn c12_step(b: &Built, g: &mut Inner, st: &mut State, from: usize, to: usize) {
 // ---------------------------------------------------------------------------------------------
 
 fn c14_step(b: &Built, g: &mut Inner, st: &mut State, at_end: bool) {
-    let se = match edge_of_probe(g, 0) {
+    for o in 0..b.probes.len() {
+        c14_one(b, g, st, at_end, o);
+    }
+}
+
+fn c14_one(b: &Built, g: &mut Inner, st: &mut State, at_end: bool, owner: usize) {
+    let se = match edge_of_probe(g, owner) {
         Some(e) => e,
         None => return,
     };
